@@ -395,27 +395,47 @@ func check(h History) (*failure, int) {
 
 // ---------------------------------------------------------------- shrinking
 
-func measure(h History) int {
-	m := 0
-	for _, c := range h {
-		m += 50
-		for _, it := range c.Items {
-			m += 20 + len(it.Content)
-			if it.Name != nil {
-				m += 1 + len(*it.Name)
-			}
-			if it.IP != nil {
-				m += 1 + len(*it.IP)
-			}
+var (
+	nameCands = []string{"a.go", "a_1.go", "b.go", "a_2.go"}
+	contCands = []string{"X", "Y", "Z", "W", "V"}
+	ipCands   = []string{"p", "q"}
+)
+
+func rank(s *string, cands []string) int {
+	if s == nil {
+		return 0
+	}
+	for i, c := range cands {
+		if c == *s {
+			return 1 + i
 		}
 	}
-	return m
+	return 1000 + len(*s)
+}
+
+// rankVec orders histories for shrinking: fewer items, fewer calls, then item by item the strings of
+// the canonical candidate lists before any other string (shorter first). Lexicographic, well-founded.
+func rankVec(h History) []int {
+	v := []int{h.nitems(), len(h)}
+	for _, c := range h {
+		v = append(v, len(c.Items))
+		for _, it := range c.Items {
+			it := it
+			v = append(v, rank(it.Name, nameCands), rank(it.IP, ipCands), rank(&it.Content, contCands))
+		}
+	}
+	return v
 }
 
 func less(a, b History) bool {
-	ma, mb := measure(a), measure(b)
-	if ma != mb {
-		return ma < mb
+	va, vb := rankVec(a), rankVec(b)
+	for i := 0; i < len(va) && i < len(vb); i++ {
+		if va[i] != vb[i] {
+			return va[i] < vb[i]
+		}
+	}
+	if len(va) != len(vb) {
+		return len(va) < len(vb)
 	}
 	return key(a) < key(b)
 }
@@ -473,8 +493,6 @@ func shrink(h History, f *failure) (History, *failure) {
 		}
 		return false
 	}
-	nameCands := []string{"a.go", "a_1.go", "b.go", "a_2.go"}
-	contCands := []string{"X", "Y", "Z", "W", "V"}
 	for changed := true; changed; {
 		changed = false
 		// drop a call, merge two calls
@@ -524,24 +542,48 @@ func shrink(h History, f *failure) (History, *failure) {
 				}))
 			}
 		}
-		// simpler contents
-		for _, n := range distinctStrings(cur, func(it Item) *string { return &it.Content }) {
-			for _, c := range contCands {
+		// all names at once (keeps sibling relations between names intact)
+		if ns := distinctStrings(cur, func(it Item) *string { return it.Name }); !changed && len(ns) <= 3 {
+			var rec func(i int, m map[string]string, used map[string]bool)
+			rec = func(i int, m map[string]string, used map[string]bool) {
 				if changed {
-					break
+					return
 				}
-				n, c := n, c
-				changed = try(mapItems(cur, func(it Item) Item {
-					if it.Content == n {
-						it.Content = c
+				if i == len(ns) {
+					changed = try(mapItems(cur, func(it Item) Item {
+						if it.Name != nil {
+							it.Name = sp(m[*it.Name])
+						}
+						return it
+					}))
+					return
+				}
+				for _, c := range nameCands {
+					if !used[c] {
+						used[c], m[ns[i]] = true, c
+						rec(i+1, m, used)
+						used[c] = false
 					}
-					return it
-				}))
+				}
+			}
+			rec(0, map[string]string{}, map[string]bool{})
+		}
+		// simpler contents, item by item
+		for i := 0; i < len(cur) && !changed; i++ {
+			for j := 0; j < len(cur[i].Items) && !changed; j++ {
+				for _, c := range contCands {
+					if changed {
+						break
+					}
+					cand := cur.clone()
+					cand[i].Items[j].Content = c
+					changed = try(cand)
+				}
 			}
 		}
 		// simpler points
 		for _, n := range distinctStrings(cur, func(it Item) *string { return it.IP }) {
-			for _, c := range []string{"p", "q"} {
+			for _, c := range ipCands {
 				if changed {
 					break
 				}
@@ -580,18 +622,6 @@ func shrink(h History, f *failure) (History, *failure) {
 					break
 				}
 			}
-		}
-	}
-	// relabel contents by first appearance: X, Y, Z, …
-	ds := distinctStrings(cur, func(it Item) *string { return &it.Content })
-	if len(ds) <= len(contCands) {
-		m := map[string]string{}
-		for i, d := range ds {
-			m[d] = contCands[i]
-		}
-		cand := mapItems(cur, func(it Item) Item { it.Content = m[it.Content]; return it })
-		if g, _ := check(cand); g != nil && g.class == curF.class {
-			cur, curF = cand, g
 		}
 	}
 	curF.Key = key(cur)
@@ -715,18 +745,30 @@ func (g *gen) history(maxItems int) History {
 	return h
 }
 
-// ambiguous: two patch points p, q with q starting with p+")" give replacer keys one of which is a
-// prefix of the other; then Go's map order decides the output (not a function of the input).
+// ambiguous: some replacer key (a patch's insertion point, or a marker occurring in a submitted
+// content) is a proper prefix of another one. Only possible when a patch point contains ')'. Then the
+// argument order of strings.NewReplacer, which BuildResponse takes from a Go map range, decides which
+// key wins: the output is not a function of the input, and no deterministic model can be compared.
 func ambiguous(h History) bool {
-	var ps []string
-	for _, c := range h {
-		for _, it := range c.Items {
-			ps = append(ps, it.ip())
+	seen := map[string]bool{}
+	var ks []string
+	add := func(k string) {
+		if !seen[k] {
+			seen[k] = true
+			ks = append(ks, k)
 		}
 	}
-	for _, p := range ps {
-		for _, q := range ps {
-			if p != q && strings.HasPrefix(q, p+")") {
+	for _, c := range h {
+		for _, it := range c.Items {
+			add(marker + it.ip() + ")")
+			for _, m := range oracleMarker.FindAllString(it.Content, -1) {
+				add(m)
+			}
+		}
+	}
+	for _, p := range ks {
+		for _, q := range ks {
+			if p != q && strings.HasPrefix(q, p) {
 				return true
 			}
 		}
